@@ -337,13 +337,6 @@ async def execute(case, source=None) -> Run:
 
 UNDEPLOYISH = ("undeploy", "undeploy_all", "close")
 REQUESTISH = ("deploy", "use", "call")
-# symptom kinds that an undeploy racing with a deploy is known to produce (see the end of judge())
-RACE_KINDS = (
-    "C26:crash:", "C26:undeploy-before-deploy-finished", "C26:call-on-undeployed-connector", "C26:deploy-returned-before-deployed",
-    "C26:two-instances-deploying", "C26:redeploy-while-live", "C26:redeploy-during-undeploy", "C26:double-undeploy",
-    "C26:instance-deployed-twice", "C26:use-returned-without-call", "C26:spurious-failed-deployment", "C26:deadlock:",
-)
-
 
 def judge(run: Run):
     """Returns (violations [(seq, kind, message)] sorted by log time, facts dict).
@@ -567,8 +560,8 @@ def judge(run: Run):
     # sets whatever event is then registered under the name; it does not re-check anything after waiting for the
     # deployment event; its orphan sweep hits deployments that are still being deployed; FutureConnector.undeploy
     # ignores a lazy deployment in flight; undeploy_all does not fence new deploy requests. Once one of these
-    # preconditions has occurred for a group of stacked deployments, the symptoms listed in RACE_KINDS on that group
-    # are consequences of it and are reported under the precondition's kind (the symptom stays in the message).
+    # preconditions has occurred for a group of stacked deployments, every later symptom on that group is reported
+    # under the precondition's kind (the symptom stays in the message).
     comp = {}
     for n in by:
         comp[n] = {m for m in by if clos[n] & clos[m] or n in clos[m] or m in clos[n]}
@@ -613,7 +606,10 @@ def judge(run: Run):
     for q, k, m, dep in V:
         if k in DIRECT:
             k, m = "C26:undeploy-race:" + DIRECT[k], f"[{k.split(':', 2)[2]}] {m}"
-        elif (k.startswith(RACE_KINDS) and not k.endswith("-failure")) or k == "C26:inner-undeployed-while-wrapper-live:wrapper-deploying":
+        else:
+            # every symptom, including those of defects that are fixed by now (wrapper-failed, wrapper-itself-wrapped,
+            # after-inner-failure ...): once an undeploy/close has overlapped a deploy request or a connector's deploy
+            # on the group, the overlap is the cause on record; the other kinds are reserved for overlap-free histories
             pre = precondition(dep, q)
             if pre is not None:
                 k, m = "C26:undeploy-race:" + pre, f"[{k.split(':', 1)[1]}] {m}"
